@@ -220,6 +220,7 @@ type Exec struct {
 	clockThread  *Thread
 	Values       map[string]any // per-execution scratch for harnesses
 	KeyFn        func() Hash    // optional semantic state key supplied by the harness
+	EarlyClock   int            // clock steps taken while a thread was runnable (early expiries)
 	OnCrashValue func(v any)    // optional
 }
 
@@ -643,6 +644,9 @@ func (e *Exec) schedule(t *Thread) {
 		}
 		next := en[choice]
 		if next == e.clockThread {
+			if nThreads > 0 {
+				e.EarlyClock++
+			}
 			e.Transitions++
 			e.clk.step(e)
 			if e.ended {
